@@ -34,9 +34,9 @@ def _model_dict(m, limit=400):
     return out
 
 
-PORTFOLIO = [({'smt.mbqi': False}, 0.4),
-             ({'smt.mbqi': False, 'smt.arith.nl': False}, 0.2),
-             ({}, 0.4)]
+PORTFOLIO = [({'smt.mbqi': False, 'smt.arith.nl': False}, 0.25),
+             ({'smt.mbqi': False}, 0.4),
+             ({}, 0.35)]
 
 
 def _check(args):
@@ -58,12 +58,15 @@ def _check(args):
             for a in list(full)[:-1]:
                 sx = a.sexpr()
                 (quant if ('(forall ' in sx or '(exists ' in sx) else qf).append(a)
-            for k, share in ((0, 0.08), (4, 0.08), (12, 0.1), (40, 0.12)):
+            for k, share, nl in ((0, 0.05, False), (0, 0.05, True), (4, 0.05, False), (4, 0.06, True),
+                                 (12, 0.05, False), (12, 0.08, True), (40, 0.1, True)):
                 if k and k >= len(quant):
                     break
                 s0 = z3.Solver(ctx=ctx)
                 s0.set('timeout', max(200, int(timeout_ms * share)))
                 s0.set('smt.mbqi', False)
+                if not nl:
+                    s0.set('smt.arith.nl', False)
                 s0.add(*qf)
                 if k:
                     s0.add(*quant[-k:])
